@@ -429,9 +429,12 @@ func (h *H) msgLens(s algSpec, tier string) []int {
 	var ls []int
 	switch s.family {
 	case "kw":
-		ls = []int{16, 24, 32, 40, 48, 64}
+		// 6·n steps: the step counter t = n·j+i exceeds one byte from n = 43 (344 bytes) — lengths
+		// on both sides of that boundary (two bytes would need 87 KB of key data: too slow for the
+		// list-based Lean model, not generated)
+		ls = []int{16, 24, 32, 40, 48, 64, 336, 344, 520, 8 * h.rng.Range(43, 130)}
 		if tier == "thorough" {
-			ls = append(ls, 56, 72, 128, 8*h.rng.Range(10, 40))
+			ls = append(ls, 56, 72, 128, 8*h.rng.Range(10, 40), 2056)
 		}
 	case "cbcnopad":
 		ls = []int{0, 16, 32, 48, 64}
@@ -487,6 +490,9 @@ func (h *H) roundTrips() {
 				h.res.Hit("outcome:" + eo.class)
 				h.res.Hit(fmt.Sprintf("ptlen:%d", bucketLen(n)))
 				h.encMonitor(c, s, true, true, key, nonce, pt, eo)
+				if s.family == "kw" {
+					h.kwInteropMonitor(c, key, pt, outcome{class: eo.class, a: eo.a})
+				}
 				h.queue("encrypt output = model(Lean-native primitives)", line, canonEnc(eo), c)
 				if eo.class != "ok" {
 					continue
@@ -509,7 +515,7 @@ func (h *H) roundTrips() {
 				}
 				h.queue("decrypt output = model(Lean-native primitives)", dline, canonDec(do), dc)
 				// tampering
-				if tier == "quick" && !(li%4 == 0 || n == 17 || n == 16) {
+				if (tier == "quick" && !(li%4 == 0 || n == 17 || n == 16)) || n > 600 {
 					continue
 				}
 				h.tamperAll(dfn, alg, s, jk, key, nonce, eo.a, eo.b, ad, pt)
@@ -772,7 +778,12 @@ func (h *H) kwDirect() {
 		if h.f.Tier == "thorough" {
 			maxLen = 96
 		}
+		var lens []int
 		for n := 0; n <= maxLen; n++ {
+			lens = append(lens, n)
+		}
+		lens = append(lens, 336, 344, 352, 8*h.rng.Range(43, 200)) // step counter beyond one byte
+		for _, n := range lens {
 			data := h.rng.Bytes(n)
 			// Wrap
 			wo := guarded(func() outcome {
@@ -784,6 +795,7 @@ func (h *H) kwDirect() {
 			h.res.Count(line, nontrivialClass(wo.class))
 			h.res.Hit("kw:wrap:" + wo.class)
 			h.kwWrapMonitor(c, data, wo)
+			h.kwInteropMonitor(c, key, data, wo)
 			h.queue("aeskw.Wrap = model wrap (= Kit.Crypto.kwWrap)", line, canonOut(wo), c)
 			// Unwrap of arbitrary bytes of every length
 			uo := h.unwrapCall(blk, data)
@@ -824,7 +836,7 @@ func (h *H) kwDirect() {
 				h.kwUnwrapMonitor(tc, data, in, o)
 				h.queue("aeskw.Unwrap = model unwrap (= Kit.Crypto.kwUnwrap)", l, canonOut(o), tc)
 			}
-			if n%8 == 0 && (h.f.Tier == "thorough" || n <= 32) {
+			if n%8 == 0 && n <= 96 && (h.f.Tier == "thorough" || n <= 32) {
 				for i := range wo.a {
 					in := cp(wo.a)
 					x := byte(h.rng.Range(1, 255))
@@ -876,6 +888,50 @@ func (h *H) kwWrapMonitor(c Case, data []byte, o outcome) {
 	if !inDomain && (o.class == "ok" || len(o.a) != 0) {
 		c.Got = canonOut(o)
 		h.res.Violate("aeskw-wrap-outside-domain", "Wrap accepted key data outside RFC 3394's domain", c)
+	}
+}
+
+// rfc3394Wrap is an independent implementation written from RFC 3394 section 2.2.1 (index based:
+// A = IV, R[1..n] = P[1..n]; for j = 0..5, for i = 1..n: B = AES(K, A | R[i]); A = MSB64(B) ^ t with
+// t = n*j+i as a 64-bit big-endian integer; R[i] = LSB64(B); output A | R[1] | … | R[n]).
+func rfc3394Wrap(kek, p []byte) []byte {
+	blk, err := aes.NewCipher(kek)
+	if err != nil || len(p)%8 != 0 || len(p) < 16 {
+		return nil
+	}
+	n := len(p) / 8
+	out := make([]byte, 8+len(p))
+	for i := 0; i < 8; i++ {
+		out[i] = 0xA6
+	}
+	copy(out[8:], p)
+	var b [16]byte
+	for j := 0; j <= 5; j++ {
+		for i := 1; i <= n; i++ {
+			copy(b[:8], out[:8])
+			copy(b[8:], out[8*i:8*i+8])
+			blk.Encrypt(b[:], b[:])
+			t := uint64(n*j + i)
+			for k := 0; k < 8; k++ {
+				b[7-k] ^= byte(t >> (8 * uint(k)))
+			}
+			copy(out[:8], b[:8])
+			copy(out[8*i:], b[8:])
+		}
+	}
+	return out
+}
+
+// kwInteropMonitor: the wrapped key must be the one any RFC 3394 implementation produces
+// (model-independent: judged against rfc3394Wrap above).
+func (h *H) kwInteropMonitor(c Case, key, data []byte, o outcome) {
+	if o.class != "ok" {
+		return
+	}
+	want := rfc3394Wrap(key, data)
+	if want != nil && !bytesEq(o.a, want) {
+		c.Expect, c.Got = "ok out="+hx(want), canonOut(o)
+		h.res.Violate("aeskw-interop-rfc3394", "Wrap output differs from RFC 3394 (an independent implementation cannot unwrap it)", c)
 	}
 }
 
